@@ -61,12 +61,14 @@ class C08(Prop):
             c["s"] = 0
             c["n"] = min(N, max(c["n"], 2 * c["tf"]))
         if api == "chans":
-            c["chans"] = rng.sample(range(C), 2)
+            c["chans"] = rng.sample(range(C), rng.randint(2, min(C, 4)))
+            c["batch"] = rng.choice((1, 2, 200))
         if api == "bands":
             c["per"] = rng.choice((2, 4))
             nb = rng.randint(1, C // c["per"])
             c["nch"] = nb * c["per"]
             c["chanstart"] = rng.randrange(0, C - c["nch"] + 1)
+            c["batch"] = rng.choice((1, 2, 3, 200))      # sub-bands per batch; < number of bands -> several batches
         if api == "read_chan":
             c["ichan"] = rng.randrange(C)
         if api == "mask":
@@ -148,10 +150,11 @@ class C08(Prop):
             elif api == "samps":
                 res["out"] = self._filehdr(fil.extract_samps(s, n, outfile_name=out, gulp=g, quiet=True))
             elif api == "chans":
-                outs = fil.extract_chans(np.array(case["chans"]), outfile_base=str(d / "c"), **kw)
+                outs = fil.extract_chans(np.array(case["chans"]), outfile_base=str(d / "c"), batch_size=case.get("batch", 200), **kw)
                 res["outs"] = [self._filehdr(o) for o in outs]
             elif api == "bands":
-                outs = fil.extract_bands(case["chanstart"], case["nch"], case["per"], outfile_base=str(d / "b"), **kw)
+                outs = fil.extract_bands(case["chanstart"], case["nch"], case["per"], outfile_base=str(d / "b"),
+                                         batch_size=case.get("batch", 200), **kw)
                 res["outs"] = [self._filehdr(o) for o in outs]
             elif api == "downsample":
                 if C % case["ff"]:
@@ -313,8 +316,9 @@ class C08(Prop):
             return [("Filterbank_extract_chans", hin, {"p_chan": c, "p_start": s}, o, common_f)
                     for c, o in zip(case["chans"], obs["outs"])]
         if api == "bands":
-            return [("Filterbank_extract_bands", hin, {"p_batch_start": 0, "p_chanpersub": case["per"],
-                                                      "p_chanstart": case["chanstart"], "p_i": i, "p_start": s}, o, common_f)
+            bs = case.get("batch", 200)
+            return [("Filterbank_extract_bands", hin, {"p_batch_start": (i // bs) * bs, "p_chanpersub": case["per"],
+                                                      "p_chanstart": case["chanstart"], "p_i": i % bs, "p_start": s}, o, common_f)
                     for i, o in enumerate(obs["outs"])]
         if api == "downsample":
             return [("Filterbank_downsample", hin, {"p_ffactor": case["ff"], "p_start": s, "p_tfactor": case["tf"]}, out, common_f)]
